@@ -1,0 +1,42 @@
+//go:build verif
+
+// Contracts for package anonssh, checked by /verif/govc (contract-based
+// deductive verification). Comments only.
+
+package anonssh
+
+// ---------------------------------------------------------------- C20: who gets a session
+// keyBlob(k): the wire encoding of public key k (what Marshal returns, as a
+// string): the identity under which keys are listed.
+//@ spec func keyBlob(k: int): Str
+//@ extern (golang.org/x/crypto/ssh.PublicKey).Marshal params k
+//@   pure
+//@   ensures str(result) == keyBlob(data(k))
+//@ extern (golang.org/x/crypto/ssh.PublicKey).Type params k
+//@   pure
+//@ extern (golang.org/x/crypto/ssh.ConnMetadata).User params c
+//@   pure
+//@ extern (golang.org/x/crypto/ssh.ConnMetadata).RemoteAddr params c
+//@   pure
+
+// The public-key callback: on a listener with a key set (authorised SSH) a
+// key is accepted only if it is in the set; the verdict is about the key the
+// callback was called with, whatever happened earlier on the connection.
+//@ func anonssh.Serve$2
+//@   ensures[C20] [only-listed-keys] err == nil && !isnil(listener.authorizedKeys) ==> has(listener.authorizedKeys, keyBlob(data(pubKey))) && listener.authorizedKeys[keyBlob(data(pubKey))]
+
+// An authorised-SSH listener always has a key set (possibly empty: nobody
+// gets in); only an anonymous listener has none.
+//@ func anonssh.loadAuthorizedKeys
+//@   ensures[C20] [key-set-exists] err == nil ==> !isnil(result)
+//@ func anonssh.ListenerFromConfig
+//@   ensures[C20] [authorized-listener-has-key-set] err == nil && cfg.AuthorizedSSH.Address != "" ==> !isnil(result.authorizedKeys)
+
+// ---------------------------------------------------------------- C20: what a session can do
+// Only "session" channels are served; of the session requests only "exec"
+// starts anything, and what it starts is the CLI entry point with exactly the
+// command line an rsync client uses to reach a daemon over a remote shell.
+//@ func (*anonssh.anonssh).handleChannel
+//@   at[C20] (*anonssh.anonssh).handleSession: assert [session-channels-only] t == "session"
+//@ func (*anonssh.session).request
+//@   at[C20] (*anonssh.session).request$1: assert [daemon-command-line-only] req.Type == "exec" && len(cmdline) == 4 && cmdline[1] == "--server" && cmdline[2] == "--daemon" && cmdline[3] == "."
